@@ -1131,3 +1131,262 @@ def modular_vmap_control_flow_events(ctx, rule="ROLE-modular_vmap"):
                 ctx.ok(rule, construct, "switch over re-interpreted branches with the same axis size and dummy")
             else:
                 ctx.bad(rule, construct, "switch(index, re-interpreted branches, dummy_arg, operands)", f"found {[short(x, ev, 200) for x in sw]}", loc)
+
+
+def lowering_guard_terms(ctx, rule="GUARD-lowering"):
+    """The lowering rule of InitialStylePrimitive, as a decision table over its four atomic conditions: it raises
+    params['lowering_exception'] exactly when the exception is carried and enforcement is on and the warning override is off;
+    nothing is lowered on that path."""
+    from .c16 import bool_eval, bool_atoms, resolve_all
+    import itertools
+    ev = mk_ev(ctx)
+    dotted = PJ + "InitialStylePrimitive.__init__"
+    s = summarize(ctx, ev, dotted)
+    loc = func_loc(ctx, dotted)
+    construct = "pjax.InitialStylePrimitive.lowering"
+    clo = s.env.get("lowering")
+    ctx.need(clo is not None and clo[0] == "closure", "InitialStylePrimitive.lowering not found")
+    PR = ("param", "params_")
+    r = ev.apply_closure(clo, (("param", "c_"), ("star", ("param", "a_"))), ((None, PR),))
+    atoms = []
+    for x in subterms(r):
+        if x[0] == "ifexp":
+            bool_atoms(x[1], atoms)
+    names = {}
+    for a in atoms:
+        if a == ("cmp", "in", C("lowering_warning"), PR):
+            names[a] = "warn_in"
+        elif a == N(PJ + "lowering_warning"):
+            names[a] = "warn_flag"
+        elif a == ("cmp", "in", C("lowering_exception"), PR):
+            names[a] = "exc_in"
+        elif a == N(PJ + "enforce_lowering_exception"):
+            names[a] = "enforce"
+        else:
+            raise AnalysisError(f"{construct}: unrecognised condition {short(a, ev)}")
+    ctx.need({"exc_in", "enforce"} <= set(names.values()), f"{construct}: guard conditions not found ({sorted(names.values())})")
+    problems = []
+    for bits in itertools.product([True, False], repeat=len(atoms)):
+        asg = dict(zip(atoms, bits))
+        sem = {names[a]: v for a, v in asg.items()}
+        leaf = resolve_all(r, asg)
+        raises = leaf[0] == "raise"
+        want = sem["exc_in"] and sem["enforce"] and not (sem.get("warn_in", False) and sem.get("warn_flag", False))
+        when = ", ".join(f"{k}={v}" for k, v in sorted(sem.items()))
+        if raises != want:
+            problems.append(f"[{when}] should {'raise' if want else 'lower'} but {'raises' if raises else 'lowers'}")
+        elif raises and leaf[1] != ("idx", PR, C("lowering_exception")):
+            problems.append(f"[{when}] raises {short(leaf[1], ev)} instead of the carried lowering exception")
+    if problems:
+        for p_ in dict.fromkeys(problems):
+            ctx.bad(rule, construct, p_[:160], p_, loc)
+    else:
+        ctx.ok(rule, construct, f"{2 ** len(atoms)} cases: raises the carried exception iff it is carried and enforced and the warning override is off")
+    # flags: module-level constants, never written elsewhere
+    m = ctx.p.modules["genjax.pjax"]
+    for flag, want in (("enforce_lowering_exception", True), ("lowering_warning", False)):
+        v = m.defs.get(flag)
+        good = isinstance(v, ast.Constant) and v.value is want
+        writes = []
+        for mn, mm in ctx.p.modules.items():
+            for n in ast.walk(mm.tree):
+                if isinstance(n, (ast.Assign, ast.AugAssign, ast.AnnAssign)):
+                    tg = n.targets if isinstance(n, ast.Assign) else [n.target]
+                    for t in tg:
+                        if (isinstance(t, ast.Name) and t.id == flag) or (isinstance(t, ast.Attribute) and t.attr == flag):
+                            writes.append((mn, n.lineno))
+                if isinstance(n, ast.Global) and flag in n.names:
+                    writes.append((mn, n.lineno))
+                if isinstance(n, ast.Call) and unp(n.func) in ("setattr",) and any(isinstance(a, ast.Constant) and a.value == flag for a in n.args):
+                    writes.append((mn, n.lineno))
+        if good and len(writes) == 1:
+            ctx.ok("OWN-lowering-flags", f"pjax.{flag}", f"module constant {want}, no other writer")
+        else:
+            ctx.bad("OWN-lowering-flags", f"pjax.{flag}", "module-level constant, single writer", f"value={unp(v) if v is not None else None}, writers={writes}", "src/genjax/pjax.py")
+    # registration and proxy forwarding (symbolic)
+    regs = [e[2] for e in s.events if e[1] == "call" and e[2][1] == N("jax.interpreters.mlir.register_lowering")]
+    if not any(r_[2] == (SELF, clo) for r_ in regs):
+        ctx.bad(rule, "pjax.InitialStylePrimitive", "lowering registered", "mlir.register_lowering(self, lowering) missing", loc)
+    ev2 = mk_ev(ctx)
+    s2 = summarize(ctx, ev2, PJ + "PPPrimitive.__init__")
+    clo2 = s2.env.get("lowering")
+    ok = clo2 is not None and clo2[0] == "closure"
+    if ok:
+        r2 = ev2.apply_closure(clo2, (("star", ("param", "a_")),), ((None, PR),))
+        want = ("call", ("attr", ("attr", SELF, "prim"), "lowering"), (("star", ("param", "a_")),), ((None, ("attr", SELF, "params")), (None, PR)))
+        hidden = s2.env.get(("attr", SELF, "params"))
+        want2 = ("call", ("attr", ("param", "prim"), "lowering"), (("star", ("param", "a_")),), ((None, hidden), (None, PR))) if hidden else None
+        regs2 = [e[2] for e in s2.events if e[1] == "call" and e[2][1] == N("jax.interpreters.mlir.register_lowering")]
+        ok = (r2 == want or r2 == want2 or (is_call(r2) and r2[1][0] == "attr" and r2[1][2] == "lowering" and len(r2[3]) == 2 and r2[3][1] == (None, PR)
+              and (r2[3][0][1] in (("attr", SELF, "params"), hidden, ("param", "params"))))) and any(x[2][1:] == (clo2,) or x[2] == (SELF, clo2) for x in regs2)
+    if ok:
+        ctx.ok(rule, "pjax.PPPrimitive.lowering", "forwards to the wrapped primitive's guard with the hidden params")
+    else:
+        ctx.bad(rule, "pjax.PPPrimitive.lowering", "forward with hidden params", f"found {short(r2, ev2, 200) if clo2 else None}", func_loc(ctx, PJ + "PPPrimitive.__init__"))
+
+
+def sample_bind_terms(ctx, rule="OWN-sample-bind"):
+    """create_sample_primitive binds the configured primitive once, always with the lowering exception/warning, the batch rule and
+    the flat keyful sampler (symbolic value of the returned `sample` closure)."""
+    ev = mk_ev(ctx)
+    ev.inline_methods_on_ctor = False
+    dotted = PJ + "create_sample_primitive"
+    s = summarize(ctx, ev, dotted)
+    loc = func_loc(ctx, dotted)
+    construct = "pjax.create_sample_primitive"
+    CFG = ("param", "config")
+    if s.ret[0] != "closure":
+        ctx.bad(rule, construct, "returns the binding closure", f"found {short(s.ret, ev)}", loc)
+        return
+    A, KW = ("param", "a_"), ("param", "kw_")
+    r = ev.apply_closure(s.ret, (("star", A),), ((None, KW),))
+    binds = list(dict.fromkeys(x for x in subterms(r) if is_call(x, name=PJ + "initial_style_bind")))
+    if len(binds) != 1:
+        ctx.bad(rule, construct, "one bind site", f"{len(binds)} initial_style_bind calls", loc)
+    else:
+        b = binds[0]
+        kw = dict((k, v) for k, v in b[3] if k is not None)
+        fwd = [v for k, v in b[3] if k is None]
+        problems = []
+        if b[2] != (("attr", CFG, "primitive"),):
+            problems.append(f"primitive = config.primitive (found {short(('tuple', b[2]), ev)})")
+        exc = kw.get("lowering_exception")
+        if not (exc is not None and is_call(exc, name=PJ + "LoweringSamplePrimitiveToMLIRException")):
+            problems.append(f"carries a LoweringSamplePrimitiveToMLIRException (found {short(exc or NONE, ev, 80)})")
+        if kw.get("lowering_warning") is None:
+            problems.append("carries the lowering warning text")
+        br = kw.get("batch")
+        if not (br is not None and any(x == ("attr", call(N(PJ + "VmapBatchHandler"), CFG), "create_batch_rule") for x in subterms(br))):
+            problems.append(f"batch rule from VmapBatchHandler(config) (found {short(br or NONE, ev, 100)})")
+        fk = kw.get("flat_keyful_sampler")
+        if not (fk is not None and is_call(fk) and fk[1] == ("attr", call(N(PJ + "FlatSamplerCache"), CFG), "get_flat_sampler") and fk[2] == (("star", A),) and fk[3] == ((None, KW),)):
+            problems.append(f"flat keyful sampler staged for this call's arguments (found {short(fk or NONE, ev, 120)})")
+        for f_ in ("keyful_sampler", "sample_shape", "support"):
+            if kw.get(f_) != ("attr", CFG, f_):
+                problems.append(f"{f_} = config.{f_}")
+        if fwd != [("attr", CFG, "primitive_params")]:
+            problems.append("forwards config.primitive_params (carries adev_prim)")
+        # the staged implementation is the keyless wrapper; the final call applies the caller's arguments
+        outer = [x for x in subterms(r) if is_call(x) and x[1] == b]
+        if not (len(outer) == 1 and outer[0][2][:1] == (call(N(PJ + "KeylessWrapper"), CFG),)):
+            problems.append("staged function = KeylessWrapper(config)")
+        if not (is_call(r) and r[2] == (("star", A),) and r[3] == ((None, KW),)):
+            problems.append("bound primitive applied to the caller's arguments")
+        if problems:
+            for p_ in problems:
+                ctx.bad(rule, construct, p_[:120], p_, loc)
+        else:
+            ctx.ok(rule, construct, "every sampling site is bound with lowering_exception/lowering_warning/batch/flat_keyful_sampler")
+    others = []
+    for mn, mm in ctx.p.modules.items():
+        for c in ast.walk(mm.tree):
+            if isinstance(c, ast.Call) and unp(c.func) == "initial_style_bind" and c.args and unp(c.args[0]) in ("sample_p", "adev_sample_p"):
+                others.append((mn, c.lineno))
+            if isinstance(c, ast.Call) and unp(c.func) in ("sample_p.bind", "adev_sample_p.bind"):
+                others.append((mn, c.lineno))
+    if others:
+        ctx.bad(rule, "sample_p/adev_sample_p", "bound outside create_sample_primitive", f"direct bind sites {others}", f"{others[0][0]}:{others[0][1]}")
+    else:
+        ctx.ok(rule, "sample_p/adev_sample_p", "no direct bind site outside create_sample_primitive")
+
+
+def vmap_context_guard_terms(ctx, rule="GUARD-plain-vmap"):
+    ev = mk_ev(ctx)
+    dotted = PJ + "VmapBatchHandler.create_batch_rule"
+    s = summarize(ctx, ev, dotted)
+    loc = func_loc(ctx, dotted)
+    construct = "pjax.VmapBatchHandler.batch_rule"
+    if s.ret[0] != "closure":
+        ctx.bad(rule, construct, "returns the batch rule", f"found {short(s.ret, ev)}", loc)
+        return
+    VA, BA, PR = ("param", "va_"), ("param", "ba_"), ("param", "params_")
+    r = ev.apply_closure(s.ret, (VA, BA), ((None, PR),))
+    from .c16 import bool_eval, bool_atoms, resolve_all
+    import itertools
+    atoms = []
+    for x in subterms(r):
+        if x[0] == "ifexp":
+            bool_atoms(x[1], atoms)
+    names = {}
+    for a in atoms:
+        if a == ("cmp", "in", C("ctx"), PR):
+            names[a] = "has"
+        elif a in (("cmp", "==", ("idx", PR, C("ctx")), C("modular_vmap")), ("cmp", "==", ("call", ("attr", PR, "get"), (C("ctx"),), ()), C("modular_vmap"))):
+            names[a] = "is_mv"
+        else:
+            raise AnalysisError(f"{construct}: unrecognised condition {short(a, ev)}")
+    ctx.need("is_mv" in names.values(), f"{construct}: context test not found")
+    bad = []
+    for bits in itertools.product([True, False], repeat=len(atoms)):
+        asg = dict(zip(atoms, bits))
+        sem = {names[a]: v for a, v in asg.items()}
+        leaf = resolve_all(r, asg)
+        mv = sem.get("has", True) and sem["is_mv"]
+        if mv:
+            ok = is_call(leaf) and leaf[1] == ("attr", SELF, "_handle_modular_vmap") and leaf[2][:2] == (VA, BA)
+        else:
+            ok = leaf[0] == "raise"
+        if not ok:
+            bad.append(f"[modular_vmap context={mv}] found {short(leaf, ev, 120)}")
+    if bad:
+        for b in bad:
+            ctx.bad(rule, construct, b[:120], "a sampling site under plain jax.vmap must raise; under modular_vmap it is re-bound: " + b, loc)
+    else:
+        ctx.ok(rule, construct, "raises on every path where ctx != 'modular_vmap'")
+
+
+def logdensity_batch_terms(ctx, rule="ROLE-logdensity-batch"):
+    """The log-density batch rule vmaps the site's own density with the in-axes tree rebuilt from this site's batch axes
+    (constants skipped), applies it to the operands rebuilt the same way, and declares axis 0 iff some operand is batched."""
+    ev = mk_ev(ctx)
+    dotted = PJ + "LogDensityVmapHandler.create_batch_rule"
+    s = summarize(ctx, ev, dotted)
+    loc = func_loc(ctx, dotted)
+    construct = "pjax.LogDensityVmapHandler.batch_rule"
+    if s.ret[0] != "closure":
+        ctx.bad(rule, construct, "returns the batch rule", f"found {short(s.ret, ev)}", loc)
+        return
+    VA, BA, PR = ("param", "va_"), ("param", "ba_"), ("param", "params_")
+    r = ev.apply_closure(s.ret, (VA, BA), ((None, PR),))
+    nc = ("idx", PR, C("num_consts"))
+    tree = lambda seq: call(N("jax.tree_util.tree_unflatten"), ("idx", PR, C("in_tree")), ("idx", seq, ("slice", nc, NONE, NONE)))
+    in_tree, batch_tree = tree(VA), tree(BA)
+    impl = ("attr", ("attr", SELF, "config"), "log_density_impl")
+    problems = []
+    it = items(r)
+    if it is None or len(it) != 2:
+        raise AnalysisError(f"{construct}: return shape not recognised")
+    outs, axes = it
+    vm = list(dict.fromkeys(x for x in subterms(outs) if is_call(x, name="jax.vmap")))
+    if not vm:
+        problems.append("the density is vmapped")
+    for v in vm:
+        if ev.kwget(v[3], "in_axes") != batch_tree and (len(v[2]) < 2 or v[2][1] != batch_tree):
+            problems.append(f"jax.vmap(density, in_axes = tree rebuilt from batch_axes[num_consts:]) (found in_axes={short(ev.kwget(v[3], 'in_axes') or NONE, ev, 120)})")
+        f = v[2][0] if v[2] else NONE
+        if f != impl:
+            if f[0] == "closure":
+                A_, K_ = ("param", "aa_"), ("param", "kk_")
+                b = ev.apply_closure(f, (A_, K_), ())
+                if b != ("call", impl, (("star", A_),), ((None, K_),)):
+                    problems.append(f"the site's own density is vmapped (found {short(b, ev, 120)})")
+            else:
+                problems.append(f"the site's own density is vmapped (found {short(f, ev, 80)})")
+    # operands
+    applied = [x for x in subterms(outs) if is_call(x) and is_call(x[1], name=PJ + "create_log_density_primitive")]
+    for a in dict.fromkeys(applied):
+        ok = a[2] == (("star", in_tree),) or a[2] == (("idx", in_tree, C(0)), ("idx", in_tree, C(1)))
+        if not ok:
+            problems.append(f"applied to the operands rebuilt from vector_args[num_consts:] (found {short(('tuple', a[2]), ev, 160)})")
+    if not applied:
+        problems.append("re-bound as a log-density primitive")
+    ax = items(axes)
+    n = call(N(PJ + "static_dim_length"), BA, call(N("builtins.tuple"), VA))
+    n2 = call(N(PJ + "static_dim_length"), BA, VA)
+    if not (ax and len(ax) == 1 and ax[0] in (("ifexp", n, C(0), NONE), ("ifexp", n2, C(0), NONE))):
+        problems.append(f"out axis 0 iff some operand is batched (found {short(axes, ev, 120)})")
+    if problems:
+        for p_ in dict.fromkeys(problems):
+            ctx.bad(rule, construct, p_[:120], p_, loc)
+    else:
+        ctx.ok(rule, construct, "density vmapped with the in-axes tree rebuilt from this site's batch axes")
